@@ -335,6 +335,86 @@ func checkC05(c *Ctx) {
 	// multi-valued properties (shared analysis with C14.K2): report only the count here
 	r.OK("C05.N2", "multi-valued-properties", "", "direct array assertions on node properties are reported by C14.K2 (same rule, not repeated)")
 
+	// ---- N5: the verdict may depend on the graph only, so nothing but the JSON decoder may look at the data TEXT: on the way
+	// from the entry points to the decoder the text parameter is handed on and never inspected (its length, its nesting depth,
+	// a prefix, a hash are all properties of the serialisation, not of the graph)
+	r.Rule("C05.N5", "the data text is only handed to the JSON decoder, never inspected on the way", 3)
+	n5 := 0
+	for _, fn := range p.ModuleFuncs() {
+		if RelPkg(fn) != "internal/validator" {
+			continue
+		}
+		for _, b := range fn.Blocks {
+			for _, ins := range b.Instrs {
+				ci, ok := ins.(ssa.CallInstruction)
+				if !ok {
+					continue
+				}
+				n := funcFullName(ssaCalleeObj(ci))
+				if n != "encoding/json.NewDecoder" && n != "encoding/json.Unmarshal" {
+					continue
+				}
+				origin := ci.Common().Args[0]
+				for {
+					switch x := origin.(type) {
+					case *ssa.Convert:
+						origin = x.X
+						continue
+					case *ssa.MakeInterface:
+						origin = x.X
+						continue
+					case *ssa.Call:
+						switch funcFullName(ssaCalleeObj(x)) {
+						case "bytes.NewReader", "strings.NewReader", "bytes.NewBuffer", "bytes.NewBufferString":
+							origin = x.Call.Args[0]
+							continue
+						}
+					}
+					break
+				}
+				prm, ok := origin.(*ssa.Parameter)
+				if !ok {
+					continue // reported by C04.E5
+				}
+				chain := textChain(p, fn, prm, map[*ssa.Parameter]bool{})
+				onChain := map[*ssa.Function]map[int]bool{}
+				for _, tp := range chain {
+					for i, q := range tp.fn.Params {
+						if q == tp.prm {
+							if onChain[tp.fn] == nil {
+								onChain[tp.fn] = map[int]bool{}
+							}
+							onChain[tp.fn][i] = true
+						}
+					}
+				}
+				for _, tp := range chain {
+					n5++
+					bad := otherUsesOfText(tp.prm, func(ci ssa.CallInstruction, argIdx int) bool {
+						name := funcFullName(ssaCalleeObj(ci))
+						switch name {
+						case "bytes.NewReader", "strings.NewReader", "bytes.NewBuffer", "bytes.NewBufferString", "encoding/json.NewDecoder", "encoding/json.Unmarshal":
+							return true
+						}
+						if callee := ci.Common().StaticCallee(); callee != nil && onChain[callee] != nil && onChain[callee][argIdx] {
+							return true
+						}
+						return false
+					})
+					var where []string
+					for _, b := range bad {
+						where = append(where, p.Pos(b.Pos()))
+					}
+					sort.Strings(where)
+					r.Check(len(bad) == 0, "C05.N5", FuncKey(tp.fn)+"#"+tp.prm.Name(), p.Pos(tp.fn.Pos()), "the data text is only passed on towards the decoder", "the data text is used for something else than being handed to the decoder ("+strings.Join(where, ", ")+"): whatever is computed from the text (length, nesting, prefix, hash, a copy kept for later) depends on the serialisation, so two serialisations of one graph can be treated differently")
+				}
+			}
+		}
+	}
+	if n5 == 0 {
+		r.Unknown("C05.N5", "decode-site", "", "no JSON decode of a text parameter found in internal/validator")
+	}
+
 	// ---- N3
 	c05Rego(c)
 }
@@ -457,6 +537,38 @@ func c05Rego(c *Ctx) {
 	if err != nil {
 		r.Unknown("C05.N3", "preamble", "", err.Error())
 		return
+	}
+	// N4: values of the graph are compared as values. Built-ins that print a value the way the document wrote it expose the
+	// serialisation: the input is decoded with UseNumber, so json.marshal(1.0) is "1.0" and json.marshal(1) is "1" although both
+	// are the same number (likewise 100 / 1E2, and the key order of objects)
+	r.Rule("C05.N4", "the embedded Rego never prints a data value in its written form (json.marshal / yaml.marshal)", 1)
+	printed := 0
+	for _, rl := range rp.Module.Rules {
+		// the clause is identified by the type tests that guard it (as_string has one clause per kind of value)
+		var guards []string
+		for _, e := range rl.Body {
+			if e.IsCall() {
+				if n := e.Operator().String(); strings.HasPrefix(n, "is_") {
+					guards = append(guards, n)
+				}
+			}
+		}
+		sort.Strings(guards)
+		seenHere := map[string]bool{}
+		walkRuleTerms(rl, func(t *rast.Term) {
+			if n, _ := callName(t); n == "json.marshal" || n == "yaml.marshal" || n == "json.marshal_with_options" {
+				k := string(rl.Head.Name) + "[" + strings.Join(guards, ",") + "]#" + n
+				if seenHere[k] {
+					return
+				}
+				seenHere[k] = true
+				printed++
+				r.Bad("C05.N4", k, fmt.Sprintf("preamble line %d", rl.Location.Row-1), n+" renders numbers exactly as the document spelled them (1 vs 1.0, 100 vs 1E2): two serialisations of the same graph compare differently")
+			}
+		})
+	}
+	if printed == 0 {
+		r.OK("C05.N4", "census", "", fmt.Sprintf("%d preamble rules: no json.marshal / yaml.marshal of data values", len(rp.Module.Rules)))
 	}
 	// nodes_array itself: data.nodes if is_array(data.nodes) else [data.nodes]
 	na := rp.rulesNamed("nodes_array")
